@@ -22,6 +22,11 @@ CC = {
     'gcc-O2-gnu89': ('gcc', ['-O2', '-std=gnu89']),
     'clang-O2-gnu89': ('clang', ['-O2', '-std=gnu89']),
     'clang-O0-gnu89': ('clang', ['-O0', '-std=gnu89']),
+    # ABIs whose plain char is unsigned (ARM, PowerPC, s390): -funsigned-char gives the same typedef semantics on this host
+    'gcc-O1-uchar': ('gcc', ['-O1', '-funsigned-char']),
+    'clang-O2-uchar': ('clang', ['-O2', '-funsigned-char']),
+    'gcc-O1-nobuiltin-san': ('gcc', ['-O1', '-g', '-D__has_builtin(x)=0', '-fsanitize=undefined,address,float-cast-overflow', '-fno-sanitize-recover=all']),
+    'clang-O1-nobuiltin-san': ('clang', ['-O1', '-g', '-D__has_builtin(x)=0', '-fsanitize=undefined,address', '-fno-sanitize-recover=all']),
     'gcc-O1-nobuiltin': ('gcc', ['-O1', '-D__has_builtin(x)=0']),
     'clang-O1-nobuiltin': ('clang', ['-O1', '-D__has_builtin(x)=0']),
     'gcc-O1-be': ('gcc', ['-O1', '-DWASM_ENDIAN=1']),
